@@ -276,6 +276,15 @@ impl Inputs for String {
                 }
             }
         }
+        // long inputs around power-of-two sizes (small-buffer / fast-path thresholds), in bytes and in chars
+        for n in [15usize, 16, 17, 31, 32, 33, 63, 64, 65, 127, 128, 129, 255, 256, 257, 1023, 1024, 1025, 4097] {
+            for fill in ["a", "ß", "😀", "aZ "] {
+                let core: String = fill.chars().cycle().take(n).collect();
+                v.push(core.clone());
+                v.push(format!("  {core}\u{2003}"));
+                v.push(format!("{core}@"));
+            }
+        }
         for s in ["foo@bar.com", "  Hello World  ", "STRASSE", "straße", "ΟΔΥΣΣΕΥΣ", "İstanbul", "ǅungla", "a!b", "aaa", "ŉŉŉ", "ﬁﬁ"] {
             v.push(s.to_string());
         }
@@ -284,10 +293,11 @@ impl Inputs for String {
     fn strategy(_m: &Model<Self>) -> BoxedStrategy<Self> {
         let sig: Vec<char> = SIGMA.to_vec();
         prop_oneof![
-            proptest::collection::vec(proptest::sample::select(sig), 0..12).prop_map(|cs| cs.into_iter().collect::<String>()),
-            proptest::collection::vec(any::<char>(), 0..24).prop_map(|cs| cs.into_iter().collect::<String>()),
-            ".{0,16}".prop_map(|s| s),
-            "[ \\t\\n]{0,3}[a-zA-Z@!ßİ]{0,10}[ \\u{85}\\u{3000}]{0,3}".prop_map(|s| s),
+            4 => proptest::collection::vec(proptest::sample::select(sig), 0..12).prop_map(|cs| cs.into_iter().collect::<String>()),
+            4 => proptest::collection::vec(any::<char>(), 0..24).prop_map(|cs| cs.into_iter().collect::<String>()),
+            4 => ".{0,16}".prop_map(|s| s),
+            4 => "[ \\t\\n]{0,3}[a-zA-Z@!ßİ]{0,10}[ \\u{85}\\u{3000}]{0,3}".prop_map(|s| s),
+            1 => proptest::collection::vec(proptest::sample::select(SIGMA.to_vec()), 24..300).prop_map(|cs| cs.into_iter().collect::<String>()),
         ]
         .boxed()
     }
@@ -315,10 +325,14 @@ impl Inputs for Vec<i32> {
             out.extend(next.iter().cloned());
             frontier = next;
         }
+        for n in [15usize, 16, 17, 100, 101, 1000] {
+            out.push((0..n as i32).rev().collect());
+            out.push(vec![7; n]);
+        }
         out
     }
     fn strategy(_m: &Model<Self>) -> BoxedStrategy<Self> {
-        prop_oneof![proptest::collection::vec(any::<i32>(), 0..8), proptest::collection::vec(-3i32..60, 0..8)].boxed()
+        prop_oneof![8 => proptest::collection::vec(any::<i32>(), 0..8), 8 => proptest::collection::vec(-3i32..60, 0..8), 1 => proptest::collection::vec(-3i32..60, 8..200)].boxed()
     }
     fn near_bound(&self, _m: &Model<Self>) -> bool {
         (2..=4).contains(&self.len()) || self.is_empty()
